@@ -5,7 +5,7 @@ from __future__ import annotations
 import ast
 
 from .common import *  # noqa: F401,F403
-from .common import SVC, MOD, AnalysisError, Ctx, Facts, Registry, U, Unit, call_name, own_nodes, parent, q, where
+from .common import SVC, MOD, TASKVARS, AnalysisError, Ctx, Facts, Registry, U, Unit, call_name, own_nodes, parent, q, where
 from .c03 import escape_before_mark
 from .c10 import check_task_done_pairing
 
@@ -47,6 +47,8 @@ def idle_disjuncts(test: ast.AST, self_: str) -> set[str]:
             out.add('qsize')
         elif t == f'{self_}._on_idle.is_set()' and neg:
             out.add('flag')
+        elif t.endswith('._unfinished_tasks') and 'event_queue' in t and not neg:
+            out.add('unfinished')
         else:
             out.add('?' + ('not ' if neg else '') + t)
     return out
@@ -120,11 +122,14 @@ def c15_1(c: Ctx) -> None:
             continue
         lits = _nnf_disjuncts(ast.UnaryOp(op=ast.Not(), operand=gi.test))
         have = idle_disjuncts(ast.UnaryOp(op=ast.Not(), operand=gi.test), self_) if lits is not None else set()
-        if need <= have and not any(isinstance(x, ast.Await) for x in ast.walk(gi.test)):
+        # (before the queue has been joined the idle flag and the history are not enough: an event the run loop has taken off the queue and not yet started is in no queue, and a
+        #  forwarded one already reads 'completed'; only the queue's unfinished-task count — what join() waits for — covers it)
+        need_early = need | {'unfinished'}
+        if need_early <= have and not any(isinstance(x, ast.Await) for x in ast.walk(gi.test)):
             early_ok.add(rn.id)
             c.ok(where(u, rn.ast), f'early return only under the full idle test ({U(gi.test)[:80]})')
         else:
-            c.fail(u, f'early return under `{U(gi.test)[:70]}`, which does not establish {sorted(need - have)}', 'wait_until_idle can return while the bus still has ' + '/'.join(sorted(need - have))
+            c.fail(u, f'early return under `{U(gi.test)[:70]}`, which does not establish {sorted(need_early - have)}', 'wait_until_idle can return while the bus still has ' + '/'.join(sorted(need_early - have))
                    + ' events: the idle flag is stale between a dispatch and the run loop\'s next step, and an event the run loop has already taken off the queue is in no queue', node=rn.ast)
             early_ok.add(rn.id)  # reported here; not again as "bypasses the loop"
     barrier = {head.id} | {n.id for n in arms} | early_ok
@@ -270,6 +275,33 @@ def c15_9(c: Ctx) -> None:
     else:
         c.fail(u, 'a suspension is reachable without calling _start()', 'wait_until_idle() can wait on a bus whose run loop is not running (never started on this path, or ended by an earlier fault without '
                'stop()): the queue it joins is never drained and it never returns', witness=c.path(g.entry, p) if p else [])
+
+
+@ob('C15.10', 'ESC', 'wait_until_idle() gives up only by returning (after its timeout): it raises nothing of its own except the TimeoutError it catches itself. A refusal to wait ("called from '
+    'inside a handler") must identify the running handler task, not test a context variable: context variables are copied into every task and callback a handler spawns and stay set there '
+    'after the handler has returned, so such a test refuses callers for which the bus does become idle')
+def c15_10(c: Ctx) -> None:
+    u = c.unit(SVC, 'EventBus.wait_until_idle')
+    g = c.cfg(u)
+    raises = [n for n in g.live_nodes() if n.kind == 'raise' and n.ast is not None and n.ast.exc is not None]
+    n_ok = 0
+    for rn in raises:
+        tname = U(rn.ast.exc.func if isinstance(rn.ast.exc, ast.Call) else rn.ast.exc).split('.')[-1]
+        if tname == 'TimeoutError':
+            n_ok += 1
+            continue  # C15.1 (b) judges it
+        conds = [x for a in q.ancestors_of(rn.ast) if isinstance(a, ast.If) and q.lexically_in(rn.ast, a, 'body') for x in ast.walk(a.test)]
+        ctxvar = [x for x in conds if isinstance(x, ast.Call) and call_name(x) == 'get' and isinstance(x.func, ast.Attribute) and isinstance(x.func.value, ast.Name) and x.func.value.id in TASKVARS]
+        if ctxvar:
+            c.fail(u, f'raises {tname} under a test of {sorted({U(x) for x in ctxvar})}', f'wait_until_idle() refuses to wait whenever {U(ctxvar[0])} is set — also in a background task or callback that a handler '
+                   'spawned and that outlives it: the bus goes idle, the call raises instead of returning (and stop(timeout=..) fails half-way, leaving the bus running)', node=rn.ast)
+        elif not conds:
+            c.fail(u, f'raises {tname} unconditionally', 'wait_until_idle() fails instead of waiting', node=rn.ast)
+        else:
+            n_ok += 1
+            c.ok(where(u, rn.ast), f'raises {tname} only under a test that does not read inherited context ({U(q.enclosing(rn.ast, (ast.If,)).test)[:60]})')
+    if not raises or n_ok == len(raises):
+        c.ok(where(u), 'wait_until_idle raises nothing of its own besides the TimeoutError it handles')
 
 
 def check_runloop_only_awaits_step(c: Ctx) -> None:
